@@ -169,6 +169,7 @@ type job struct {
 	restarts int
 	wall     time.Duration
 	aborts   int
+	memFatal int
 }
 
 type tierParams struct {
@@ -459,13 +460,19 @@ func main() {
 	} else {
 		tp := tierParams{perDir: 12, modOwn: 50, modCross: 400, chunk: 300}
 		if cfg.Thorough() {
-			tp = tierParams{perDir: 120, modOwn: 6, modCross: 40, fullBelow: 600, chunk: 400}
+			tp = tierParams{perDir: 60, modOwn: 6, modCross: 40, fullBelow: 400, chunk: 400}
 		}
 		if v, err := strconv.Atoi(os.Getenv("VERIF_C06_MOD")); err == nil && v > 0 {
 			tp.modOwn = v
 		}
 		if v, err := strconv.Atoi(os.Getenv("VERIF_C06_PERDIR")); err == nil && v >= 0 {
 			tp.perDir = v
+		}
+		if v, err := strconv.Atoi(os.Getenv("VERIF_C06_FULLBELOW")); err == nil && v >= 0 {
+			tp.fullBelow = v
+		}
+		if v, err := strconv.Atoi(os.Getenv("VERIF_C06_MODCROSS")); err == nil && v > 0 {
+			tp.modCross = v
 		}
 		for _, c := range coreCases() {
 			jobs = append(jobs, &job{text: c})
